@@ -408,7 +408,7 @@ private theorem exec_targets {σ : Type} (P : PolicyFn σ) (idem : Bool) (outcom
 
 /-- Attempt `i+1` follows decision `i`: it is a retry decision, the consistency is the one it named (or
 unchanged); after `RetryNextTarget` the target is a later one; after `RetrySameTarget` it is the same target,
-or — when that target's next `get_connection()` fails (`execution.rs:546-557`) — a later one; it IS the same
+or — when that target's next `get_connection()` fails (`execution.rs:536-547`) — a later one; it IS the same
 target whenever the target's pool keeps yielding connections. -/
 private theorem exec_threading {σ : Type} (P : PolicyFn σ) (idem : Bool) (outcomes : Nat → Outcome) (fuel : Nat)
     (plan : List Target) (t : Nat) (loc : Loc σ) (i : Nat) (a b : Attempt)
@@ -757,7 +757,7 @@ theorem decisions_are_policy_replay_any_policy :
 /-- Attempt `i+1` is the one decision `i` asked for: decision `i` is a retry decision and the consistency of
 attempt `i+1` is the one it returned (or the unchanged one).  After `RetryNextTarget` the target is a later
 one.  After `RetrySameTarget` it is the same target — or, when that target's pool gives no connection any
-more (`get_connection()` is called again before every attempt, `execution.rs:546-557`), a later one; it is the
+more (`get_connection()` is called again before every attempt, `execution.rs:536-547`), a later one; it is the
 same target whenever the target's pool keeps yielding connections. -/
 theorem attempt_follows_decision (i : Nat) (a b : Attempt)
     (ha : (runWith P idem cl0 plan outcomes fuel).attempts[i]? = some a)
